@@ -185,7 +185,8 @@ Definition on_loop (t : nat) (f : crec -> bool) (cr : crec) : bool :=
 
 (* nothing can move without the clock: the guard of Adv *)
 Definition blocked (s : state) (tick : N) (cr : crec) : bool :=
-  if alive (lp s (cloop cr)) then
+  match lp s (cloop cr) with
+  | LRun =>
     match cpc cr with
     | PStart | PDone _ => true
     | PComp _ _ => negb (ccanc cr)
@@ -196,7 +197,9 @@ Definition blocked (s : state) (tick : N) (cr : crec) : bool :=
         && negb (isset s e && alive (lp s l))
     | _ => false
     end
-  else true.
+  | LShut => done_or_unstarted (cpc cr)   (* the shutdown run cancels and finishes every started call at once *)
+  | _ => true
+  end.
 
 Definition quiescent (s : state) (tick : N) : bool :=
   match lock s with None => forallb (blocked s tick) (callers s) | Some _ => false end.
